@@ -65,6 +65,11 @@ def configs(tier, seed):
         for cls in ("RW", "RW1C", "RW1S"):
             for init in sorted(inits):
                 cfgs.append({"cls": cls, "shape": list(sh), "init": init})
+    # the same actions as fields of a csr.Register, below / above a neighbour: "a field's data output always equals what a bus
+    # read of it returns" - also for signed and enum shapes holding any value, whatever the neighbouring fields hold
+    for sh in [("s", 4), ("s", 1), ("s", 9), ("enum2", 0), ("u", 3), ("u", 0)]:
+        for cls in ("RW", "RW1C", "RW1S"):
+            cfgs.append({"cls": cls, "shape": list(sh), "init": 0, "in_register": True})
     return cfgs
 
 
@@ -79,8 +84,39 @@ def _init_arg(sh, init):
     return init
 
 
+def check_in_register(ctx, cfg):
+    """the action as the lowest and as the middle field of a real csr.Register, next to an unsigned RW field and a read-only field:
+    every readable field's slice of the register's read data equals that field's data output (as bits), in every state"""
+    from amaranth_soc import csr
+    from amaranth_soc.csr import action
+    sh = tuple(cfg["shape"]); w = width_of(sh)
+    cls = getattr(action, cfg["cls"])
+    try:
+        reg = csr.Register({"lo": csr.Field(cls, shape_of(sh)), "mid": csr.Field(action.RW, unsigned(4), init=5),
+                            "again": csr.Field(cls, shape_of(sh)), "top": csr.Field(action.R, unsigned(3))}, access="rw")
+    except (ValueError, TypeError) as e:
+        raise Refused(str(e))
+    S = lambda x: x.as_value() if hasattr(x, "as_value") else x
+    flds = [("lo", reg.f.lo, w), ("mid", reg.f.mid, 4), ("again", reg.f.again, w), ("top", reg.f.top, 3)]
+    nl = ctx.netlist(reg, probes=[S(f.data) for _, f, _ in flds[:3]])
+    ctx.nontrivial = True
+    f0 = nl.frame("0")
+    rd = f0.val(reg.element.r_data)
+    pos = 0
+    eqs = []
+    for nm, f, fw in flds:
+        if fw and nm != "top":
+            eqs.append(z3.Extract(pos + fw - 1, pos, rd) == f0.val(S(f.data)))
+        pos += fw
+    name = {"RW": "rw_read_eq_data", "RW1C": "rw1c_read_eq_data", "RW1S": "rw1s_read_eq_data"}[cfg["cls"]]
+    ctx.prove(name, z3.And(*eqs), frames=[f0])
+    ctx.canary("bus_read_is_zero", rd == 0)
+
+
 def check_config(ctx, cfg):
     from amaranth_soc.csr import action
+    if cfg.get("in_register"):
+        return check_in_register(ctx, cfg)
     sh = tuple(cfg["shape"]); w = width_of(sh)
     cls = getattr(action, cfg["cls"])
     try:
